@@ -142,9 +142,17 @@ func (r *R) NextStep() { r.step++ }
 // Tracef appends a line to the human-readable trace (replay mode only).
 func (r *R) Tracef(format string, a ...interface{}) {
 	if r.Trace {
-		r.Steps = append(r.Steps, fmt.Sprintf("[%d] ", r.step)+fmt.Sprintf(format, a...))
+		l := fmt.Sprintf("[%d] ", r.step) + fmt.Sprintf(format, a...)
+		r.Steps = append(r.Steps, l)
+		if TraceToStderr {
+			fmt.Fprintln(os.Stderr, "TRACE "+l)
+		}
 	}
 }
+
+// TraceToStderr mirrors trace lines to stderr as they are produced, so that a
+// run that kills the process still leaves its history behind.
+var TraceToStderr bool
 
 // Fault counts a fault kind that actually fired.
 func (r *R) Fault(kind string) { r.Faults[kind]++ }
